@@ -37,10 +37,13 @@ def canon_scalar(v):
         return ("s", v)
     if isinstance(v, (bytes, bytearray, memoryview)):
         return ("y", bytes(v))
-    if isinstance(v, (list, dict, tuple)):
-        return ("j", json.dumps(v, sort_keys=True))
+    if isinstance(v, dict):
+        # nested cells (MAP): keys may be of any scalar type
+        return ("j", json.dumps([[repr(canon_scalar(k)), repr(canon_scalar(x))] for k, x in v.items()]))
+    if isinstance(v, (list, tuple)):
+        return ("j", json.dumps([repr(canon_scalar(x)) for x in v]))
     if isinstance(v, np.ndarray):
-        return ("j", json.dumps(v.tolist(), sort_keys=True))
+        return ("j", json.dumps([repr(canon_scalar(x)) for x in v.tolist()]))
     if isinstance(v, (pd.Timestamp, np.datetime64)):
         t = pd.Timestamp(v)
         if t is pd.NaT:
@@ -212,11 +215,17 @@ def same_table(exp, got, ctx=None, check_index=True, check_dtype=True, cat_stric
     return fails
 
 
+def _unnamed(names):
+    """pandas' own spelling of an unnamed stored index level (__index_level_N__) is the same as no name"""
+    import re
+    return [None if (isinstance(n, str) and re.fullmatch(r"__index_level_\d+__", n)) else n for n in names]
+
+
 def compare_index(ei, gi, ctx=None):
     fails = []
     if isinstance(ei, pd.RangeIndex):
         gnames = [None] if (list(ei.names) == [None] and list(gi.names) == ["index"]) else list(gi.names)
-        if gnames != list(ei.names):
+        if _unnamed(gnames) != _unnamed(list(ei.names)):
             fails.append({"kind": "index_names", "expected": [str(n) for n in ei.names], "got": [str(n) for n in gi.names]})
         # automatic range index: regenerated; values must be the same range
         if len(ei) == len(gi) and len(ei) and not (np.asarray(gi) == np.asarray(ei)).all():
@@ -226,6 +235,7 @@ def compare_index(ei, gi, ctx=None):
         return [{"kind": "index_levels", "expected": ei.nlevels, "got": gi.nlevels}]
     en = [n for n in ei.names]
     gn = [n for n in gi.names]
+    en, gn = _unnamed(en), _unnamed(gn)
     if ei.nlevels == 1 and en == [None] and gn == ["index"]:
         gn = [None]   # documented canonical form: an unnamed written index is stored as column "index"
     if en != gn:
